@@ -730,6 +730,15 @@ class Bubble(Box):
         """ The diagram inside a bubble. """
         return self._inside
 
+    def __eq__(self, other):
+        if isinstance(other, Bubble):
+            return self.inside == other.inside\
+                and (self.dom, self.cod) == (other.dom, other.cod)
+        return super().__eq__(other)
+
+    def __hash__(self):
+        return hash(repr(self))
+
     def __str__(self):
         return "({}).bubble({})".format(
             self.inside,
